@@ -150,3 +150,15 @@ func (obj *Bignum) LoadForm() Object {
 	}
 	return obj
 }
+
+// IntegerFromBig returns the canonical integer object for the value: a
+// Fixnum when it fits and a *Bignum otherwise. An integer has one
+// representation only. The results of integer arithmetic are built with
+// this function, a *Bignum holding a small value is not a fixnum for typep
+// and is not the key 1 of a hash-table.
+func IntegerFromBig(bi *big.Int) Object {
+	if bi.IsInt64() {
+		return Fixnum(bi.Int64())
+	}
+	return (*Bignum)(bi)
+}
